@@ -450,10 +450,19 @@ theorem inv_eval {c : Clock} {t : Rat} (h : Inv c t) (now : Rat) (htn : t ≤ no
         simp only [PC.parkedUntil.injEq] at hd
         exact ⟨x, xs, hq, hd.symm⟩
 
+theorem batch_evalOK {c : Clock} {t : Rat} (hc : Core c t) (e : Rat) (hpc : c.pc = .batch e)
+    (now : Rat) (htn : t ≤ now) :
+    c.batchE e now = c.batchTempo.secs2beats (c.batchNow now) ∧ c.batchTempo.WF ∧ c.batchNow now ≤ now := by
+  have hev := hc.evalOK e (Or.inl hpc)
+  unfold Clock.batchE Clock.batchNow Clock.batchTempo
+  split
+  · exact ⟨rfl, hc.tempoWF, le_refl _⟩
+  · exact ⟨hev.1, hev.2.1, le_trans hev.2.2 htn⟩
+
 theorem inv_batchStep {c : Clock} {t : Rat} (h : Inv c t) (e : Rat) (hpc : c.pc = .batch e)
     (now : Rat) (htn : t ≤ now) : Inv (c.batchStep e now) now := by
+  have hev := batch_evalOK h.core e hpc now htn
   have hc := h.core.mono htn
-  have hev := hc.evalOK e (Or.inl hpc)
   unfold Clock.batchStep
   split
   · refine ⟨?_, dl_of_not_parked (by simp) (by simp)⟩
@@ -471,8 +480,10 @@ theorem inv_batchStep {c : Clock} {t : Rat} (h : Inv c t) (e : Rat) (hpc : c.pc 
       have hsc := List.pairwise_cons.mp hsorted
       simp only [List.map_cons, List.nodup_cons, List.mem_map, not_exists, not_and] at hnds
       have hperm : (Clock.allStamps
-          { c with q := xs, pc := .inAwake e x,
-                   hist := Ev.awake x e c.evalNow c.evalTempo now (c.tempo.beats2secs x.key) :: c.hist }).Perm
+          { c with q := xs, pc := .inAwake (c.batchE e now) x,
+                   evalNow := c.batchNow now, evalTempo := c.batchTempo,
+                   hist := Ev.awake x (c.batchE e now) (c.batchNow now) c.batchTempo now
+                             (c.tempo.beats2secs x.key) :: c.hist }).Perm
           c.allStamps := by
         unfold Clock.allStamps
         simp only [awakeStamps, goneStamps, hq, SQ.stamps, List.map_cons, List.cons_append]
@@ -494,8 +505,9 @@ theorem inv_batchStep {c : Clock} {t : Rat} (h : Inv c t) (e : Rat) (hpc : c.pc 
           · exact hy
         · intro hy
           exact ⟨Or.inr hy, fun heq => hnds.1 y hy heq⟩
-      · show x ∈ pend c.hist ∧ (∀ y ∈ pend c.hist, y = x ∨ x.before y) ∧ x.key ≤ e ∧
-            e = c.evalTempo.secs2beats c.evalNow ∧ c.evalTempo.WF ∧ c.evalNow ≤ now ∧ TraceOK c.hist
+      · show x ∈ pend c.hist ∧ (∀ y ∈ pend c.hist, y = x ∨ x.before y) ∧ x.key ≤ c.batchE e now ∧
+            c.batchE e now = c.batchTempo.secs2beats (c.batchNow now) ∧ c.batchTempo.WF ∧
+            c.batchNow now ≤ now ∧ TraceOK c.hist
         refine ⟨(hc.pendIff x).mpr (by rw [hq]; exact List.mem_cons_self ..), ?_, hle, hev.1, hev.2.1,
           hev.2.2, hc.trace⟩
         intro y hy
@@ -587,7 +599,7 @@ theorem inv_step {c c' : Clock} {t : Rat} (h : Inv c t) (m : Move) (hok : m.ok)
   | thr now => exact inv_thr h now (htn now rfl) hs
   | finish r => exact inv_finish h r hs
 
-theorem core_init (T : Tempo) (hT : T.WF) (t : Rat) : Inv (Clock.init T) t := by
+theorem core_init (T : Tempo) (hT : T.WF) (fresh : Bool) (t : Rat) : Inv (Clock.init T fresh) t := by
   refine ⟨?_, dl_of_not_parked (by simp [Clock.init]) (by simp [Clock.init])⟩
   exact { sorted := List.Pairwise.nil, nodupTask := List.nodup_nil, tempoWF := hT, nextEq := rfl,
           pendIff := fun y => Iff.rfl, trace := trivial,
